@@ -325,6 +325,15 @@ func (e *enc) unop(st *State, x *ssa.UnOp) {
 		v := e.loadValue(st, addr, x.Type())
 		e.setVal(x, v)
 		e.assumeAll(e.facts(e.val(x), x.Type(), false))
+		// references found in the INITIAL heap are never this activation's own allocations
+		switch sortOf(x.Type()) {
+		case "Slice":
+			e.declare("Mem_Slice_0", "(Array Ref Slice)")
+			e.assertOnce(fmt.Sprintf("(>= (root (sarr (select Mem_Slice_0 %s))) 0)", addr))
+		case "Ref":
+			e.declare("Mem_Ref_0", "(Array Ref Ref)")
+			e.assertOnce(fmt.Sprintf("(>= (root (select Mem_Ref_0 %s)) 0)", addr))
+		}
 	case token.NOT:
 		e.setVal(x, not(e.val(x.X)))
 	case token.SUB:
